@@ -228,6 +228,11 @@ def ground_axioms(formulas, rounds=2, pow_as_explog=True, max_pairs=400):
     return axioms
 
 
+def _needs_axioms_pow(t):
+    n = ir._num(t.args[1])
+    return not (n is not None and n.denominator == 1 and 0 < abs(n) <= 8)
+
+
 class Result(object):
     def __init__(self, verdict, model=None, backend='z3', seconds=0.0, detail=''):
         self.verdict, self.model, self.backend, self.seconds, self.detail = verdict, model, backend, seconds, detail
@@ -325,6 +330,26 @@ def prove(hyps, goal, timeout_ms=20000, extra_axioms=(), free_ufs_ok=False, ufs=
             if ok is True:
                 return Result('refuted', model={'env': env}, backend='z3+mpmath', seconds=dt)
         rep = _repair(z3, s, m, em, universe, timeout_ms)
+        if rep is None:
+            # ask for a better-behaved abstract model (no division by zero, arguments inside the domains) and retry
+            s.push()
+            try:
+                for t in universe:
+                    if t.op == 'div':
+                        s.add(em.real(em(t.args[1])) != 0)
+                    elif t.op == 'log':
+                        s.add(em.real(em(t.args[0])) > 0)
+                    elif t.op == 'sqrt':
+                        s.add(em.real(em(t.args[0])) >= 0)
+                    elif t.op == 'ndtri':
+                        s.add(em.real(em(t.args[0])) > 0, em.real(em(t.args[0])) < 1)
+                    elif t.op == 'pow' and _needs_axioms_pow(t):
+                        s.add(em.real(em(t.args[0])) > 0)
+                if s.check() == z3.sat:
+                    m2 = s.model()
+                    rep = _repair(z3, s, m2, em, universe, timeout_ms)
+            finally:
+                s.pop()
         if rep is not None:
             env2 = _model_env(z3, rep, em, allv)
             mm = {'env': env2}
